@@ -136,13 +136,22 @@ func (t *c04T) alts() []*c04T {
 	return []*c04T{t}
 }
 
+// c04MemKey: field `Field` of local struct `Alloc` at the entry of block `Block`.
+type c04MemKey struct {
+	Alloc *ssa.Alloc
+	Field int
+	Block *ssa.BasicBlock
+}
+
 type c04FrameKey struct {
 	parent *c04Frame2
 	call   ssa.CallInstruction
+	callee *ssa.Function
 }
 
 type c04Frame2 struct {
 	fn     *ssa.Function
+	call   ssa.CallInstruction // the call (in parent) this frame was entered from
 	env    map[*ssa.Parameter]*c04T
 	fvEnv  map[*ssa.FreeVar]*c04T
 	parent *c04Frame2
@@ -159,13 +168,17 @@ type c04TermBuilder struct {
 	frames map[c04FrameKey]*c04Frame2
 	// MaxDepth of inlining.
 	MaxDepth int
+	// MemLeaves fixes the content of a field of a local struct at the entry of a block
+	// (the loop-carried state of a loop whose variables live in a struct).
+	MemLeaves map[c04MemKey]*c04T
+	memBusy   map[c04MemKey]bool
 	// Opaque callees are not inlined: their calls become "call" nodes
 	// (Name = position-free function name, Args = argument terms).
 	Opaque func(*ssa.Function) bool
 }
 
 func newC04TermBuilder(p *Prog) *c04TermBuilder {
-	return &c04TermBuilder{p: p, frames: map[c04FrameKey]*c04Frame2{}, Leaves: map[ssa.Value]*c04T{}, memo: map[*c04Frame2]map[ssa.Value]*c04T{}, busy: map[*c04Frame2]map[ssa.Value]bool{}, MaxDepth: 6}
+	return &c04TermBuilder{p: p, MemLeaves: map[c04MemKey]*c04T{}, memBusy: map[c04MemKey]bool{}, frames: map[c04FrameKey]*c04Frame2{}, Leaves: map[ssa.Value]*c04T{}, memo: map[*c04Frame2]map[ssa.Value]*c04T{}, busy: map[*c04Frame2]map[ssa.Value]bool{}, MaxDepth: 6}
 }
 
 // Root returns the frame of a root function: parameters are leaves.
@@ -389,6 +402,12 @@ func (tb *c04TermBuilder) load(fr *c04Frame2, a ssa.Value) *c04T {
 			if ft := tb.fieldStore(fr, al, x.Field); ft != nil {
 				return ft
 			}
+			// a local struct used as a group of variables: the store reaching this load
+			if c04LocalStructOnly(al) {
+				if at := c04LoadOf(x); at != nil {
+					return tb.MemAt(fr, al, x.Field, at.Block(), instrIndex(at))
+				}
+			}
 		}
 		if g, ok := x.X.(*ssa.Global); ok {
 			return &c04T{Op: "load", Name: id.Type + "." + id.Field, Args: []*c04T{{Op: "global", Name: c04GlobalName(g)}}}
@@ -468,13 +487,31 @@ func (tb *c04TermBuilder) call(fr *c04Frame2, c *ssa.Call) *c04T {
 		return &c04T{Op: "builtin:" + b.Name(), Args: args}
 	}
 	if c.Call.IsInvoke() {
-		return &c04T{Op: "invoke:" + c.Call.Method.Name(), Args: append([]*c04T{tb.Term(fr, c.Call.Value)}, args...)}
+		recv := tb.Term(fr, c.Call.Value)
+		// a seam with a single implementation in the module is a static call in disguise
+		if tgts := tb.Targets(c); len(tgts) == 1 {
+			return tb.inlineCall(fr, c, tgts[0], append([]*c04T{recv}, args...))
+		}
+		return &c04T{Op: "invoke:" + c.Call.Method.Name(), Args: append([]*c04T{recv}, args...)}
 	}
 	callee := staticCallee(c)
 	if callee == nil {
-		return c04Unknown("dynamic call")
+		// a call through a function value whose possible targets are visible in the package
+		tgts := tb.Targets(c)
+		if len(tgts) == 0 {
+			return c04Unknown("dynamic call")
+		}
+		var alts []*c04T
+		for _, t := range tgts {
+			alts = append(alts, tb.inlineCall(fr, c, t, args))
+		}
+		return c04Choice(alts)
 	}
-	if !tb.p.InModule(callee) || len(callee.Blocks) == 0 || c04IsTimePkg(callee) {
+	return tb.inlineCall(fr, c, callee, args)
+}
+
+func (tb *c04TermBuilder) inlineCall(fr *c04Frame2, c *ssa.Call, callee *ssa.Function, args []*c04T) *c04T {
+	if !c04Enterable(tb.p, callee) || len(callee.Blocks) == 0 || c04IsTimePkg(callee) {
 		return c04ExtCallTerm(callee, args)
 	}
 	if tb.Opaque != nil && tb.Opaque(callee) {
@@ -651,11 +688,11 @@ func c04ExtCallTerm(callee *ssa.Function, args []*c04T) *c04T {
 
 // frameFor returns the (cached) frame of callee entered from call c of frame fr.
 func (tb *c04TermBuilder) frameFor(fr *c04Frame2, c ssa.CallInstruction, callee *ssa.Function, args []*c04T) *c04Frame2 {
-	k := c04FrameKey{fr, c}
+	k := c04FrameKey{fr, c, callee}
 	if nf, ok := tb.frames[k]; ok {
 		return nf
 	}
-	nf := &c04Frame2{fn: callee, env: map[*ssa.Parameter]*c04T{}, fvEnv: map[*ssa.FreeVar]*c04T{}, parent: fr, depth: fr.depth + 1}
+	nf := &c04Frame2{fn: callee, call: c, env: map[*ssa.Parameter]*c04T{}, fvEnv: map[*ssa.FreeVar]*c04T{}, parent: fr, depth: fr.depth + 1}
 	tb.frames[k] = nf
 	if args == nil {
 		for _, a := range c.Common().Args {
@@ -677,27 +714,39 @@ func (tb *c04TermBuilder) frameFor(fr *c04Frame2, c ssa.CallInstruction, callee 
 	return nf
 }
 
-// inlinable: the static same-package callee of c that Term would inline from frame fr (nil otherwise).
-func (tb *c04TermBuilder) inlinable(fr *c04Frame2, c ssa.CallInstruction) *ssa.Function {
+// inlinable: the same-package callees of c that Term would inline from frame fr
+// (the static callee, or the visible targets of a call through a function value).
+func (tb *c04TermBuilder) inlinable(fr *c04Frame2, c ssa.CallInstruction) []*ssa.Function {
+	var cands []*ssa.Function
 	if c.Common().IsInvoke() {
-		return nil
+		cands = tb.Targets(c)
+	} else if callee := staticCallee(c); callee != nil {
+		cands = []*ssa.Function{callee}
+	} else {
+		cands = tb.Targets(c)
 	}
-	callee := staticCallee(c)
-	if callee == nil || !tb.p.InModule(callee) || len(callee.Blocks) == 0 || c04IsTimePkg(callee) {
-		return nil
-	}
-	if tb.Opaque != nil && tb.Opaque(callee) {
-		return nil
-	}
-	if fr.depth >= tb.MaxDepth {
-		return nil
-	}
-	for f := fr; f != nil; f = f.parent {
-		if f.fn == callee {
-			return nil
+	var out []*ssa.Function
+	for _, callee := range cands {
+		if callee == nil || !c04Enterable(tb.p, callee) || len(callee.Blocks) == 0 || c04IsTimePkg(callee) {
+			continue
+		}
+		if tb.Opaque != nil && tb.Opaque(callee) {
+			continue
+		}
+		if fr.depth >= tb.MaxDepth {
+			continue
+		}
+		rec := false
+		for f := fr; f != nil; f = f.parent {
+			if f.fn == callee {
+				rec = true
+			}
+		}
+		if !rec {
+			out = append(out, callee)
 		}
 	}
-	return callee
+	return out
 }
 
 // VisitTree calls f for every instruction of fr.fn and, recursively, of every
@@ -707,7 +756,7 @@ func (tb *c04TermBuilder) VisitTree(fr *c04Frame2, f func(fr *c04Frame2, in ssa.
 		for _, in := range b.Instrs {
 			f(fr, in)
 			if c, ok := in.(ssa.CallInstruction); ok {
-				if callee := tb.inlinable(fr, c); callee != nil {
+				for _, callee := range tb.inlinable(fr, c) {
 					tb.VisitTree(tb.frameFor(fr, c, callee, nil), f)
 				}
 			}
@@ -717,10 +766,418 @@ func (tb *c04TermBuilder) VisitTree(fr *c04Frame2, f func(fr *c04Frame2, in ssa.
 
 // SubFrames: the frame of call c (made in frame fr) and all frames below it.
 func (tb *c04TermBuilder) VisitCall(fr *c04Frame2, c ssa.CallInstruction, f func(fr *c04Frame2, in ssa.Instruction)) bool {
-	callee := tb.inlinable(fr, c)
-	if callee == nil {
+	callees := tb.inlinable(fr, c)
+	for _, callee := range callees {
+		tb.VisitTree(tb.frameFor(fr, c, callee, nil), f)
+	}
+	return len(callees) > 0
+}
+
+// Targets: the functions a call through a function value (or through an
+// interface with a single implementation in the package) can reach, found by
+// following the value to the places it is set: function literals and method
+// values, local variables, elements of literal slices/arrays/maps (local or
+// package-level), func-typed struct fields assigned in the package, parameters
+// bound at the static call sites.
+func (tb *c04TermBuilder) Targets(c ssa.CallInstruction) []*ssa.Function {
+	seen := map[ssa.Value]bool{}
+	set := map[*ssa.Function]bool{}
+	var order []*ssa.Function
+	add := func(f *ssa.Function) {
+		f = origin(f)
+		if f != nil && !set[f] {
+			set[f] = true
+			order = append(order, f)
+		}
+	}
+	unknown := false
+	var trace func(v ssa.Value, depth int)
+	var fromAddr func(a ssa.Value, depth int)
+	storesInto := func(match func(addr ssa.Value) bool, fns []*ssa.Function, depth int) {
+		for _, f := range fns {
+			allInstrs(f, func(in ssa.Instruction) {
+				switch x := in.(type) {
+				case *ssa.Store:
+					if match(x.Addr) {
+						trace(x.Val, depth+1)
+					}
+				case *ssa.MapUpdate:
+					if match(x.Map) {
+						trace(x.Value, depth+1)
+					}
+				}
+			})
+		}
+	}
+	globalOf := func(v ssa.Value) *ssa.Global {
+		for i := 0; i < 6; i++ {
+			switch x := v.(type) {
+			case *ssa.Global:
+				return x
+			case *ssa.UnOp:
+				v = x.X
+			case *ssa.IndexAddr:
+				v = x.X
+			case *ssa.FieldAddr:
+				v = x.X
+			case *ssa.Slice:
+				v = x.X
+			default:
+				return nil
+			}
+		}
+		return nil
+	}
+	fromAddr = func(a ssa.Value, depth int) {
+		switch x := a.(type) {
+		case *ssa.Alloc:
+			for _, ref := range c04RealRefs(x) {
+				if st, ok := ref.(*ssa.Store); ok && st.Addr == ssa.Value(x) {
+					trace(st.Val, depth+1)
+				}
+			}
+		case *ssa.IndexAddr:
+			// an element of a slice/array: every element ever stored into its backing array
+			base := x.X
+			if sl, ok := base.(*ssa.Slice); ok {
+				base = sl.X
+			}
+			if ph, ok := base.(*ssa.Phi); ok {
+				for _, e := range ph.Edges {
+					if sl, ok := e.(*ssa.Slice); ok {
+						fromAddr(&ssa.IndexAddr{X: sl.X}, depth+1)
+					}
+				}
+				return
+			}
+			if arr, ok := base.(*ssa.Alloc); ok {
+				for _, ref := range c04RealRefs(arr) {
+					if ia, ok := ref.(*ssa.IndexAddr); ok {
+						for _, r2 := range c04RealRefs(ia) {
+							if st, ok := r2.(*ssa.Store); ok && st.Addr == ssa.Value(ia) {
+								trace(st.Val, depth+1)
+							}
+						}
+					}
+				}
+				return
+			}
+			if g := globalOf(base); g != nil && g.Pkg != nil {
+				storesInto(func(addr ssa.Value) bool { return globalOf(addr) == g }, tb.p.FuncsOfPkg(tb.p.RelPath(g.Pkg.Pkg.Path())), depth)
+				// a package-level slice initialised from a literal: the literal's backing array is a separate global/alloc in init
+				if init := g.Pkg.Func("init"); init != nil {
+					allInstrs(init, func(in ssa.Instruction) {
+						if st, ok := in.(*ssa.Store); ok && st.Addr == ssa.Value(g) {
+							if sl, ok := st.Val.(*ssa.Slice); ok {
+								fromAddr(&ssa.IndexAddr{X: sl.X}, depth+1)
+							}
+						}
+					})
+				}
+				return
+			}
+			unknown = true
+		case *ssa.FieldAddr:
+			id := fieldIDOfAddr(x)
+			storesInto(func(addr ssa.Value) bool {
+				fa, ok := addr.(*ssa.FieldAddr)
+				return ok && fieldIDOfAddr(fa) == id
+			}, tb.p.Funcs, depth)
+		case *ssa.Global:
+			if x.Pkg != nil {
+				storesInto(func(addr ssa.Value) bool { return addr == ssa.Value(x) }, tb.p.FuncsOfPkg(tb.p.RelPath(x.Pkg.Pkg.Path())), depth)
+			}
+		case *ssa.FreeVar:
+			if b := resolveFreeVar(x); b != nil {
+				fromAddr(b, depth+1)
+			} else {
+				unknown = true
+			}
+		default:
+			unknown = true
+		}
+	}
+	trace = func(v ssa.Value, depth int) {
+		if v == nil || seen[v] || depth > 8 {
+			return
+		}
+		seen[v] = true
+		switch x := v.(type) {
+		case *ssa.Function:
+			add(x)
+		case *ssa.MakeClosure:
+			add(x.Fn.(*ssa.Function))
+		case *ssa.Phi:
+			for _, e := range x.Edges {
+				trace(e, depth+1)
+			}
+		case *ssa.ChangeType:
+			trace(x.X, depth+1)
+		case *ssa.MakeInterface:
+			trace(x.X, depth+1)
+		case *ssa.Extract:
+			trace(x.Tuple, depth+1)
+		case *ssa.Lookup:
+			if g := globalOf(x.X); g != nil && g.Pkg != nil {
+				// a package-level map: values stored by the initialiser
+				var mapVals []ssa.Value
+				if init := g.Pkg.Func("init"); init != nil {
+					var mk ssa.Value
+					allInstrs(init, func(in ssa.Instruction) {
+						if st, ok := in.(*ssa.Store); ok && st.Addr == ssa.Value(g) {
+							mk = st.Val
+						}
+					})
+					allInstrs(init, func(in ssa.Instruction) {
+						if mu, ok := in.(*ssa.MapUpdate); ok && mu.Map == mk {
+							mapVals = append(mapVals, mu.Value)
+						}
+					})
+				}
+				for _, mv := range mapVals {
+					trace(mv, depth+1)
+				}
+				if len(mapVals) == 0 {
+					unknown = true
+				}
+			} else {
+				unknown = true
+			}
+		case *ssa.Index:
+			if ld, ok := x.X.(*ssa.UnOp); ok && ld.Op == token.MUL {
+				fromAddr(&ssa.IndexAddr{X: ld.X}, depth+1)
+			} else {
+				unknown = true
+			}
+		case *ssa.UnOp:
+			if x.Op == token.MUL {
+				fromAddr(x.X, depth+1)
+			} else {
+				unknown = true
+			}
+		case *ssa.Parameter:
+			fn := x.Parent()
+			idx := c04ParamIndex(fn, x)
+			n := 0
+			for _, f := range tb.p.Funcs {
+				allInstrs(f, func(in ssa.Instruction) {
+					if cc, ok := in.(ssa.CallInstruction); ok && staticCallee(cc) == origin(fn) && idx < len(cc.Common().Args) {
+						n++
+						trace(cc.Common().Args[idx], depth+1)
+					}
+				})
+			}
+			if n == 0 {
+				unknown = true
+			}
+		case *ssa.Const:
+			// nil function value: no target
+		default:
+			unknown = true
+		}
+	}
+	cc := c.Common()
+	if cc.IsInvoke() {
+		// an interface method with exactly one implementation among the module's named types
+		iface, _ := cc.Value.Type().Underlying().(*types.Interface)
+		if iface == nil {
+			return nil
+		}
+		var impls []*ssa.Function
+		for _, pkg := range tb.p.Pkgs {
+			if !strings.HasPrefix(pkg.PkgPath, tb.p.ModPath) {
+				continue
+			}
+			scope := pkg.Types.Scope()
+			for _, n := range scope.Names() {
+				tn, ok := scope.Lookup(n).(*types.TypeName)
+				if !ok {
+					continue
+				}
+				for _, t := range []types.Type{tn.Type(), types.NewPointer(tn.Type())} {
+					if _, isIface := tn.Type().Underlying().(*types.Interface); isIface {
+						continue
+					}
+					if types.Implements(t, iface) {
+						if sel := tb.p.SSA.MethodSets.MethodSet(t).Lookup(cc.Method.Pkg(), cc.Method.Name()); sel != nil {
+							if f := tb.p.SSA.MethodValue(sel); f != nil {
+								impls = append(impls, origin(f))
+							}
+						}
+						break
+					}
+				}
+			}
+		}
+		uniq := map[*ssa.Function]bool{}
+		var out []*ssa.Function
+		for _, f := range impls {
+			if !uniq[f] {
+				uniq[f] = true
+				out = append(out, f)
+			}
+		}
+		if len(out) == 1 {
+			return out
+		}
+		return nil
+	}
+	trace(cc.Value, 0)
+	if unknown {
+		return nil
+	}
+	return order
+}
+
+// c04MaskAtoms recognises `X & K` where X is a SpecSchedule field or an OR of
+// such fields (`(s.Dom|s.Dow)&starBit`): one mask atom per field.
+func c04MaskAtoms(t *c04T, spec string) []c04Atom {
+	if t.Op != "bin:&" || len(t.Args) != 2 {
+		return nil
+	}
+	for _, pr := range [][2]*c04T{{t.Args[0], t.Args[1]}, {t.Args[1], t.Args[0]}} {
+		x, k := pr[0], pr[1]
+		if !(k.Op == "const" && k.IsK) {
+			continue
+		}
+		var fields []string
+		ok := true
+		var walk func(n *c04T)
+		walk = func(n *c04T) {
+			switch {
+			case n.Op == "load" && strings.HasPrefix(n.Name, spec+"."):
+				fields = append(fields, strings.TrimPrefix(n.Name, spec+"."))
+			case n.Op == "bin:|" && len(n.Args) == 2:
+				walk(n.Args[0])
+				walk(n.Args[1])
+			default:
+				ok = false
+			}
+		}
+		walk(x)
+		if !ok || len(fields) == 0 {
+			continue
+		}
+		var out []c04Atom
+		for _, f := range fields {
+			out = append(out, c04Atom{Kind: "mask", Field: f, K: uint64(k.K), Term: t})
+		}
+		return out
+	}
+	return nil
+}
+
+// c04LoadOf: the (single) load instruction reading through address fa, if the address is only loaded once.
+func c04LoadOf(fa *ssa.FieldAddr) ssa.Instruction {
+	var ld ssa.Instruction
+	for _, ref := range c04RealRefs(fa) {
+		if u, ok := ref.(*ssa.UnOp); ok && u.Op == token.MUL {
+			if ld != nil {
+				return nil
+			}
+			ld = u
+		} else {
+			return nil
+		}
+	}
+	return ld
+}
+
+// c04LocalStructOnly: the local struct is only read and written through its
+// fields or as a whole value; its address does not escape.
+func c04LocalStructOnly(al *ssa.Alloc) bool {
+	if _, ok := deref1(al.Type()).Underlying().(*types.Struct); !ok {
 		return false
 	}
-	tb.VisitTree(tb.frameFor(fr, c, callee, nil), f)
+	for _, ref := range c04RealRefs(al) {
+		switch x := ref.(type) {
+		case *ssa.FieldAddr:
+			for _, r2 := range c04RealRefs(x) {
+				switch y := r2.(type) {
+				case *ssa.Store:
+					if y.Addr != ssa.Value(x) {
+						return false
+					}
+				case *ssa.UnOp:
+				default:
+					return false
+				}
+			}
+		case *ssa.Store:
+			if x.Addr != ssa.Value(al) {
+				return false
+			}
+		case *ssa.UnOp:
+		default:
+			return false
+		}
+	}
 	return true
+}
+
+// MemAt: the term of field `field` of local struct al just before instruction
+// #idx of block b (idx = len(b.Instrs) for the end of the block): the last store
+// in the block, else the merge of what reaches the block's predecessors.
+func (tb *c04TermBuilder) MemAt(fr *c04Frame2, al *ssa.Alloc, field int, b *ssa.BasicBlock, idx int) *c04T {
+	if idx > len(b.Instrs) {
+		idx = len(b.Instrs)
+	}
+	for k := idx - 1; k >= 0; k-- {
+		st, ok := b.Instrs[k].(*ssa.Store)
+		if !ok {
+			continue
+		}
+		if fa, ok := st.Addr.(*ssa.FieldAddr); ok && fa.X == ssa.Value(al) && fa.Field == field {
+			return tb.Term(fr, st.Val)
+		}
+		if st.Addr == ssa.Value(al) {
+			whole := tb.Term(fr, st.Val)
+			if whole.Op == "struct" && field < len(whole.Args) {
+				return whole.Args[field]
+			}
+			if whole.Op == "const" && strings.HasPrefix(whole.Name, "zero:") {
+				return &c04T{Op: "const", Name: "zero:field"}
+			}
+			return c04Unknown("field of a stored struct value")
+		}
+	}
+	key := c04MemKey{al, field, b}
+	if fr.parent == nil {
+		if l, ok := tb.MemLeaves[key]; ok {
+			return l
+		}
+	}
+	if b.Index == 0 || len(b.Preds) == 0 {
+		return &c04T{Op: "const", Name: "zero:field"}
+	}
+	if tb.memBusy[key] {
+		return c04Unknown("loop-carried value")
+	}
+	tb.memBusy[key] = true
+	var alts []*c04T
+	for _, pb := range b.Preds {
+		alts = append(alts, tb.MemAt(fr, al, field, pb, len(pb.Instrs)))
+	}
+	tb.memBusy[key] = false
+	return c04Choice(alts)
+}
+
+// c04Enterable: fn's body belongs to the analysed module — a declared function
+// or closure, or a synthetic wrapper (bound method value, thunk) of a module method.
+func c04Enterable(p *Prog, fn *ssa.Function) bool {
+	if fn == nil {
+		return false
+	}
+	if p.InModule(fn) {
+		return true
+	}
+	if fn.Synthetic == "" || len(fn.Blocks) == 0 {
+		return false
+	}
+	obj := fn.Object()
+	return obj != nil && obj.Pkg() != nil && strings.HasPrefix(obj.Pkg().Path(), p.ModPath)
+}
+
+func c04InMod(p *Prog) func(*ssa.Function) bool {
+	return func(f *ssa.Function) bool { return c04Enterable(p, f) }
 }
